@@ -403,7 +403,7 @@ def steer(pkg, rng, with_dates):
         first.steps.append(("steertime", M.Union((("time", M.Prim("time")), ("int64", M.Prim("int64")), ("datetime", M.Prim("datetime"))), nullable=True, explicit=False), True))
 
 
-def add_zoo(first, pr_, want_cpp):
+def add_zoo(first, pr_, want_cpp, pkg=None):
     # arrays over every kind of element NumPy holds as an object or as a sub-array - and the same arrays inside a vector,
     # an optional and a map: what one generated reader hands out for them has to be accepted by every generated writer
     zr_ = pr_.fork("zoo")
@@ -414,6 +414,12 @@ def add_zoo(first, pr_, want_cpp):
         zoo += [M.Vec(M.Opt(znum())), M.Map(M.Prim("string"), znum()), M.Union((("int32", M.Prim("int32")), ("string", M.Prim("string")))),
                 M.Arr(znum(), None), M.Opt(M.Arr(znum(), 1)), M.Vec(M.Prim(zr_.choice(["complexfloat32", "datetime", "date"]))),
                 M.Union((("float32", M.Prim("float32")), ("vec", M.Vec(znum()))), nullable=True, explicit=True)]
+    if pkg is not None and pkg.find("SteerZooRec") is None:
+        # ... and records that are not plain old data: NumPy holds their string / vector / optional fields as objects inside
+        # a structured element
+        pkg.files[sorted(pkg.files)[0]].append(M.Record("SteerZooRec", (), [("name", M.Prim("string")), ("samples", M.Vec(znum())), ("maybe", M.Opt(M.Prim("int32"))), ("n", M.Prim("uint8"))]))
+        zoo.append(M.Named("SteerZooRec"))
+        zoo.append(M.Opt(M.Named("SteerZooRec")))
     for zk_, zt_ in enumerate(zoo):
         if zr_.chance(0.35):
             za_ = M.Arr(zt_, zr_.choice([None, None, 1, 2, ((None, 2),)]))
@@ -440,7 +446,7 @@ def model_task(task, ybin, root, prop):
     if prop == "C02":
         protos_ = [d for d in pkg.defs() if isinstance(d, M.Protocol)]
         if protos_:
-            add_zoo(protos_[0], rng.fork("steerpod"), want_cpp)
+            add_zoo(protos_[0], rng.fork("steerpod"), want_cpp, pkg)
     if prop in ("C01", "C03"):
         # every model read in binary carries streams of numeric arrays (whole-buffer fast paths of the runtimes)
         protos0 = [d for d in pkg.defs() if isinstance(d, M.Protocol)]
@@ -478,7 +484,7 @@ def model_task(task, ybin, root, prop):
             # arrays of the widest integers, filled (below) with single high bits: the values at which a varint gets one byte longer
             protos0[0].steps.append(("steerarru64", M.Arr(M.Prim(pr_.choice(["uint64", "uint64", "size"])), pr_.choice([None, 1, 2])), pr_.chance(0.3)))
             protos0[0].steps.append(("steerarri64", M.Arr(M.Prim("int64"), pr_.choice([None, 1, ((None, 4),), ((None, 2), (None, 3))])), pr_.chance(0.3)))
-            add_zoo(protos0[0], pr_, want_cpp)
+            add_zoo(protos0[0], pr_, want_cpp, pkg)
             if pr_.fork("bigschema").chance(0.35):
                 # a schema text of twenty-odd kilobytes: an enumeration with several hundred symbols, used by the first protocol
                 pkg.files[fn0].append(M.Enum("AaaBigCodes", "uint16", [("code%03d" % k_, k_) for k_ in range(pr_.fork("bigschema2").randint(620, 900))]))
